@@ -52,6 +52,11 @@ def allowed(site, v):
     return set()
 
 
+# inside Qt SIGNAL()/SLOT() macros uncrustify replaces the user's spacing options by its own (option
+# use_options_overriding_for_qt_macros, default true, documented): switched off so that every decision is the configured one
+QT_OFF = "indent_with_tabs=0\nuse_options_overriding_for_qt_macros=false\n"
+
+
 def apply_gap(av, min_sp, noc, pce):
     m = max(1, min_sp)
     keep = pce <= noc and pce != 0
@@ -136,7 +141,7 @@ def run(rep, build, tier, seed):
         if not hasattr(tl, "wd"):
             tl.wd = tempfile.mkdtemp(dir=base)
         cfgp = os.path.join(tl.wd, "c.cfg")
-        open(cfgp, "w").write(ct + "indent_with_tabs=0\n")
+        open(cfgp, "w").write(ct + QT_OFF)
         rc_, out, err, prefix = dumps.run_with_dumps(["-q", "-c", cfgp, "-l", lang, "-f", inp], tl.wd, timeout=60)
         recs = dumps.parse_sp(prefix + ".0.sp") if rc_ == 0 else []
         return job, rc_, recs
@@ -186,7 +191,7 @@ def run(rep, build, tier, seed):
                     lang, inp = fl
                     wd2 = tempfile.mkdtemp(dir=base2)
                     cfgp = os.path.join(wd2, "c.cfg")
-                    open(cfgp, "w").write(ct + "indent_with_tabs=0\n")
+                    open(cfgp, "w").write(ct + QT_OFF)
                     rc_, out, err, prefix = dumps.run_with_dumps(["-q", "-c", cfgp, "-l", lang, "-f", inp], wd2, timeout=60)
                     recs = dumps.parse_sp(prefix + ".0.sp") if rc_ == 0 else []
                     shutil.rmtree(wd2, ignore_errors=True)
@@ -224,7 +229,7 @@ def replay(rp, build):
     by_line = sites()
     with tempfile.TemporaryDirectory(prefix="c19r_", dir=common.WORK) as wd:
         cfgp = os.path.join(wd, "c.cfg")
-        open(cfgp, "w").write(rp["cfg"] + "indent_with_tabs=0\n")
+        open(cfgp, "w").write(rp["cfg"] + QT_OFF)
         rc_, out, err, prefix = dumps.run_with_dumps(["-q", "-c", cfgp, "-l", rp["lang"], "-f", rp["input"]], wd)
         recs = dumps.parse_sp(prefix + ".0.sp")
         vals = dict(l.split("=") for l in rp["cfg"].strip().split("\n"))
